@@ -115,7 +115,7 @@ def generate(tape, tier="quick"):
     pool = [tape.choice(NAMES) for _ in range(tape.rng_int(3, 8))]
     ops = []
     for _ in range(n):
-        k = tape.weighted([("compat", 6), ("equiv", 6), ("swap", 3), ("clear", 1), ("convert", 3), ("link", 2)])
+        k = tape.weighted([("compat", 6), ("equiv", 6), ("swap", 3), ("clear", 1), ("convert", 3), ("link", 2), ("slink", 1)])
         a, b = tape.choice(pool), tape.choice(pool)
         if tape.chance(1, 3):
             # prefer pairs of one dimension
@@ -128,6 +128,10 @@ def generate(tape, tier="quick"):
             ops.append([tape.choice(["compat", "equiv"]), a, b])
         elif k == "convert":
             ops.append(["convert", a, b, tape.choice([0.0, 1.0, 2.5, -40.0, 1000.0])])
+        elif k == "slink":
+            # a static link: one publication, pulled three times by a static input that asks for other units
+            same = [u for u in NAMES if CAT[u][0] == CAT[a][0]]
+            ops.append(["slink", a, tape.choice(same), tape.choice(same), tape.choice([1.0, 2.5, 300.0])])
         elif k == "link":
             same = [u for u in NAMES if CAT[u][0] == CAT[a][0]]
             c = tape.choice(same) if tape.chance(3, 4) else tape.choice(pool)
@@ -198,6 +202,23 @@ def execute(sc):
                 except Exception as e:
                     if compat(a, b):
                         v("unit-convert", f"{a}|{b}", f"op {oi}: to_units {a}->{b} raised {type(e).__name__}: {e}")
+            elif k == "slink":
+                nlink += 1
+                a, b, c, x = op[1:5]
+                out = Output(name="o", info=Info(time=None, grid=NoGrid(), units=b), static=True)
+                inp = Input(name="i", info=Info(time=None, grid=NoGrid(), units=c), static=True)
+                out >> inp
+                inp.ping()
+                inp.exchange_info()
+                out.push_data(tools.UNITS.Quantity(x, a), None)
+                want = conv(conv(x, a, b), b, c)
+                for n in range(3):
+                    got = inp.pull_data(dt(n) if n else None)
+                    gv = float(np.asarray(got.magnitude).reshape(-1)[0])
+                    if abs(gv - want) > 1e-9 * max(1.0, abs(want)) or not bool(tools.equivalent_units(got.units, c)):
+                        v("unit-convert", f"{a}|{b}|{c}", f"op {oi}: static link, pull {n + 1}: {x} {a} pushed to a {b} output and "
+                          f"pulled as {c}: got {gv} {got.units}, table gives {want} {c}")
+                        break
             elif k == "link":
                 nlink += 1
                 a, b, c, x = op[1:5]
